@@ -11,7 +11,7 @@ pub fn def() -> PropDef {
     PropDef {
         info: PropInfo {
             id: "C17",
-            rule: "slots: every 8-byte slot value is decoded by ebpf::get_insn / to_insn_vec and re-encoded by Insn::to_array / to_vec and compared with an independent encoder/decoder (exhaustive per field: 256 opcodes x 256 register bytes, all 65536 offsets, boundary + random immediates in quick, all 2^32 immediates in thorough; all 256 x 256 ordered pairs of opcodes in adjacent slots with non-zero fields; pseudo-random programs of 65,535 - 1,048,579 slots (lengths around 2^16, the crate's 1,000,000-instruction limit and 2^20); random full slots at random indices of random-length programs via proptest; for every program the vector decoder ebpf::to_insn_vec must give, at every index, the independent decoding of that slot and re-encode to the program). builder: every insn_builder constructor x parameters x field values compared with the reference encoding of the expected opcode, with Insn::to_vec, and with assemble() of the matching text when unused fields are zero. Non-trivial = slot with a non-zero register byte, offset or immediate (enumerations are distinct by construction; random cases distinct by hash).",
+            rule: "slots: every 8-byte slot value is decoded by ebpf::get_insn / to_insn_vec and re-encoded by Insn::to_array / to_vec and compared with an independent encoder/decoder (exhaustive per field: 256 opcodes x 256 register bytes, all 65536 offsets, boundary + random immediates in quick, all 2^32 immediates in thorough; all 256 x 256 ordered pairs of opcodes in adjacent slots with non-zero fields; pseudo-random programs of 65,535 - 1,048,579 slots (lengths around 2^16, the crate's 1,000,000-instruction limit and 2^20); random full slots at random indices of random-length programs via proptest; for every program the vector decoder ebpf::to_insn_vec must give, at every index, the independent decoding of that slot and re-encode to the program). builder: every insn_builder constructor x parameters x field values - both the bytes pushed into the BpfCode and the bytes `(&instruction).into_bytes()` returns without pushing - compared with the reference encoding of the expected opcode, with Insn::to_vec, and with assemble() of the matching text when unused fields are zero. Non-trivial = slot with a non-zero register byte, offset or immediate (enumerations are distinct by construction; random cases distinct by hash).",
             assumptions: &[
                 "reference encoder/decoder in harness/vrun/src/isa.rs is written independently (to_le_bytes) and is itself correct",
                 "builder constructors that do not denote an instruction (load() with a size other than double word, jump_conditional(Abs, Reg)) are outside the property",
@@ -273,7 +273,16 @@ fn expected(c: &BuilderCase, f: &Insn) -> Option<(u8, Option<String>)> {
     })
 }
 
-fn build(c: &BuilderCase, code: &mut BpfCode) {
+/// Pushes the instruction into `code`; `direct` collects what `(&instruction).into_bytes()` - the
+/// IntoBytes implementation on a reference, without pushing - returns for the same instruction.
+fn build(c: &BuilderCase, code: &mut BpfCode, direct: &mut Vec<u8>) {
+    macro_rules! fin {
+        ($x:expr) => {{
+            let x = $x;
+            direct.extend_from_slice(&(&x).into_bytes());
+            x.push();
+        }};
+    }
     let source = if c.reg { Source::Reg } else { Source::Imm };
     let arch = if c.x64 { Arch::X64 } else { Arch::X32 };
     match c.ctor.as_str() {
@@ -292,44 +301,44 @@ fn build(c: &BuilderCase, code: &mut BpfCode) {
                 "mov" => code.mov(source, arch),
                 _ => code.signed_right_shift(source, arch),
             };
-            apply(m, c).push();
+            fin!(apply(m, c));
         }
         "neg" => {
-            apply(code.negate(arch), c).push();
+            fin!(apply(code.negate(arch), c));
         }
         "swap" => {
             let e = if c.p1 % 2 == 1 { Endian::Big } else { Endian::Little };
-            apply(code.swap_bytes(e), c).push();
+            fin!(apply(code.swap_bytes(e), c));
         }
         "load" => {
-            apply(code.load(memsize(c.p1)), c).push();
+            fin!(apply(code.load(memsize(c.p1)), c));
         }
         "load_abs" => {
-            apply(code.load_abs(memsize(c.p1)), c).push();
+            fin!(apply(code.load_abs(memsize(c.p1)), c));
         }
         "load_ind" => {
-            apply(code.load_ind(memsize(c.p1)), c).push();
+            fin!(apply(code.load_ind(memsize(c.p1)), c));
         }
         "load_x" => {
-            apply(code.load_x(memsize(c.p1)), c).push();
+            fin!(apply(code.load_x(memsize(c.p1)), c));
         }
         "store" => {
-            apply(code.store(memsize(c.p1)), c).push();
+            fin!(apply(code.store(memsize(c.p1)), c));
         }
         "store_x" => {
-            apply(code.store_x(memsize(c.p1)), c).push();
+            fin!(apply(code.store_x(memsize(c.p1)), c));
         }
         "ja" => {
-            apply(code.jump_unconditional(), c).push();
+            fin!(apply(code.jump_unconditional(), c));
         }
         "jcond" => {
-            apply(code.jump_conditional(cond(c.p1), source), c).push();
+            fin!(apply(code.jump_conditional(cond(c.p1), source), c));
         }
         "call" => {
-            apply(code.call(), c).push();
+            fin!(apply(code.call(), c));
         }
         _ => {
-            apply(code.exit(), c).push();
+            fin!(apply(code.exit(), c));
         }
     }
 }
@@ -362,16 +371,25 @@ fn check_builder(chain: &[BuilderCase]) -> Verdict {
         return Verdict::Discard("not-an-instruction");
     }
     let kept_owned: Vec<BuilderCase> = kept.iter().map(|c| (*c).clone()).collect();
-    let got = match catch(move || {
+    let (got, direct) = match catch(move || {
         let mut code = BpfCode::new();
+        let mut direct = Vec::new();
         for c in &kept_owned {
-            build(c, &mut code);
+            build(c, &mut code, &mut direct);
         }
-        code.into_bytes().to_vec()
+        (code.into_bytes().to_vec(), direct)
     }) {
         Ok(g) => g,
         Err(m) => return Verdict::fail(panic_signature(&m), format!("builder panicked: {m}")),
     };
+    if direct != want {
+        return Verdict::fail(
+            "builder-into_bytes-on-reference",
+            format!("builder chain {:?}
+ (&instruction).into_bytes() gave {}
+ expected {}", kept, isa::hex(&direct), isa::hex(&want)),
+        );
+    }
     if got != want {
         return Verdict::fail(
             "builder-vs-reference",
